@@ -406,8 +406,22 @@ func c13Run(c Case) (Result, error) {
 	case "kmac128":
 		var err error
 		var k hash.Hasher
-		keyB, custB := unhx(in.Key), unhx(in.Cust)
+		// customizer || key in ONE buffer, each view with spare capacity reaching into its neighbour
+		// (an append on an argument inside the library would overwrite the other one)
+		kb0, cb0 := unhx(in.Key), unhx(in.Cust)
+		adj := make([]byte, len(cb0)+len(kb0)+8)
+		copy(adj, cb0)
+		copy(adj[len(cb0):], kb0)
+		for i := len(cb0) + len(kb0); i < len(adj); i++ {
+			adj[i] = 0xA5
+		}
+		custB, keyB := adj[:len(cb0)], adj[len(cb0):len(cb0)+len(kb0)]
 		p, msg := catch(func() { k, err = hash.NewKMAC_128(keyB, custB, in.OutSize) })
+		for i := len(cb0) + len(kb0); i < len(adj); i++ {
+			if adj[i] != 0xA5 {
+				return Result{}, implViolation("NewKMAC_128 wrote past the end of the caller's key")
+			}
+		}
 		if p {
 			return Result{}, implViolation("NewKMAC_128 panicked: %s", msg)
 		}
